@@ -21,14 +21,14 @@ HARNESS = [vf.kit(PKG, "c21"),
            ("tokenauth/tokens_export.go", "internal/language/tokens/zz_verif_c21_export.go")]
 
 # generator configs: (cfg, simulate num quick/thorough, behaviours replayed quick/thorough)
-GENS = [("GenCore", 60, 400, 30, 700),
-        ("GenInputs", 40, 200, 14, 200),
-        ("GenRace", 200, 1200, 6, 80),
-        ("GenRevCached", 2000, 8000, 6, 60),
-        ("GenUnrevDel", 2000, 8000, 5, 50),
-        ("GenUnrevFl", 2000, 8000, 5, 50),
-        ("GenHits", 600, 3000, 6, 80),
-        ("GenTick", 600, 3000, 6, 48)]
+GENS = [("GenCore", 60, 400, 30, 400),
+        ("GenInputs", 40, 200, 14, 120),
+        ("GenRace", 200, 1200, 6, 50),
+        ("GenRevCached", 2000, 8000, 6, 40),
+        ("GenUnrevDel", 2000, 8000, 5, 30),
+        ("GenUnrevFl", 2000, 8000, 5, 30),
+        ("GenHits", 600, 3000, 6, 50),
+        ("GenTick", 600, 3000, 6, 32)]
 
 
 def _hooks_present():
